@@ -132,17 +132,37 @@ class Ctx:
         cmd = ["go", "build", "-tags", tags, "-o", out]
         if race:
             cmd.append("-race")
-        if os.environ.get("VERIF_COVER"):
-            # diagnosis only (bin/libcoverage): which lines of the library do the harnesses ever execute?  the binaries then
-            # write their counters to $GOCOVERDIR
-            cmd += ["-cover", "-coverpkg=gitlab.com/gomidi/midi/v2/..."]
-        cmd.append(pkg)
         hd = self._harness_copy()
+        if os.environ.get("VERIF_COVER"):
+            # diagnosis only (bin/libcoverage): which lines of the library do the harnesses ever execute?  go only instruments
+            # packages of the main module, so the harness is built INSIDE a scratch copy of the library module; the binaries
+            # then write their counters to $GOCOVERDIR
+            hd = self._cover_copy()
+            cmd += ["-cover", "-coverpkg=./..."]
+            pkg = "./verifharness/" + pkg[2:]
+        cmd.append(pkg)
         p = subprocess.run(cmd, cwd=hd, env=env, capture_output=True, text=True, timeout=900)
         if p.returncode != 0:
             raise Machinery("harness build failed (does /repo still compile?):\n" + p.stdout + p.stderr)
         self._bins[key] = out
         return out
+
+    def _cover_copy(self):
+        ld = os.path.join(self.scratch, "libmod")
+        if not os.path.exists(ld):
+            shutil.copytree(os.path.join(REPO, "v2"), ld)
+            hd = os.path.join(ld, "verifharness")
+            shutil.copytree(HARNESS, hd)
+            for f in ("go.mod", "go.sum"):
+                if os.path.exists(os.path.join(hd, f)):
+                    os.remove(os.path.join(hd, f))
+            for root, _, files in os.walk(hd):
+                for f in files:
+                    if f.endswith(".go"):
+                        fp = os.path.join(root, f)
+                        t = open(fp).read()
+                        open(fp, "w").write(t.replace('"verifharness/', '"gitlab.com/gomidi/midi/v2/verifharness/'))
+        return ld
 
     def _harness_copy(self):
         # the harness is built in a scratch copy, always against the current working tree of REPO
